@@ -201,7 +201,15 @@ func (self *linkedPairs) BuildIndex() {
 	}
 	for i := 0; i < self.size; i++ {
 		p := self.At(i)
-		self.index[p.hash] = i
+		self.setIndex(p.hash, i)
+	}
+}
+
+// setIndex records pair i under hash h unless an earlier pair is recorded already:
+// like the linear search, the index must find the FIRST pair of a duplicated key.
+func (self *linkedPairs) setIndex(h uint64, i int) {
+	if j, ok := self.index[h]; !ok || j > i {
+		self.index[h] = i
 	}
 }
 
@@ -249,7 +257,9 @@ func (self *linkedPairs) Pop() {
 func (self *linkedPairs) Unset(i int) {
 	if self.index != nil {
 		p := self.At(i)
-		delete(self.index, p.hash)
+		if j, ok := self.index[p.hash]; ok && j == i {
+			delete(self.index, p.hash)
+		}
 	}
 	self.set(i, Pair{})
 }
@@ -257,7 +267,7 @@ func (self *linkedPairs) Unset(i int) {
 func (self *linkedPairs) Set(i int, v Pair) {
 	if self.index != nil {
 		h := v.hash
-		self.index[h] = i
+		self.setIndex(h, i)
 	}
 	self.set(i, v)
 }
@@ -365,7 +375,7 @@ func (self *linkedPairs) copyPairs(to []Pair, from []Pair, l int) {
 			// NOTICE: in case of user not pass hash, just cal it
 			h := caching.StrHash(from[i].Key)
 			from[i].hash = h
-			self.index[h] = i
+			self.setIndex(h, i)
 		}
 	}
 }
@@ -413,6 +423,12 @@ func (self *linkedPairs) Swap(i, j int) {
 
 func (self *linkedPairs) Sort() {
 	sort.Stable(self)
+	if self.index != nil {
+		// Swap recorded the pair moved last under each hash: rebuild so that the first
+		// pair of a duplicated key is the one the index finds
+		self.index = make(map[uint64]int, self.size)
+		self.BuildIndex()
+	}
 }
 
 // Compare two strings from the pos d.
